@@ -304,6 +304,9 @@ pub struct ReplayFile {
     pub schedule_hash: String,
     #[serde(default)]
     pub minimised_from: Value,
+    /// crash class only: the worker process executed runs first_run, first_run+stride, ..., run
+    #[serde(default)]
+    pub crash_prefix: Option<(u64, u64)>,
 }
 
 pub fn to_pj(p: &[Preempt]) -> Vec<PreemptJ> {
@@ -501,6 +504,9 @@ pub fn worker_main(scn: &'static dyn DynScenario, opts: &BatchOpts, offset: u64,
     let mut run = offset;
     let mut since_check = 0u32;
     let mut stop_at = u64::MAX;
+    // breadcrumb: which run index this process is executing, for the parent to read if the process
+    // dies by a signal (memory corruption, abort, stack overflow in the code under test)
+    let crumb = std::fs::File::create(rundir.join(format!("cur.{}", offset))).ok();
     while run < opts.max_runs {
         since_check += 1;
         if since_check >= 8 || stop_at != u64::MAX {
@@ -516,9 +522,15 @@ pub fn worker_main(scn: &'static dyn DynScenario, opts: &BatchOpts, offset: u64,
         let plan = plan_for(scn, opts.seed, run, opts.tier);
         let sched = sched_for(scn, opts.seed, run);
         *current.lock().unwrap() = Some((run, Instant::now(), plan.clone(), sched.strategy.name(), sched.seed, sched.code_seed));
+        if let Some(c) = &crumb {
+            use std::os::unix::fs::FileExt;
+            let _ = c.write_at(format!("{:>20}", run).as_bytes(), 0);
+        }
         let rep = scn.execute_json(&plan, &sched);
-        *current.lock().unwrap() = None;
+        // (the watchdog stays armed over the garbage flush: deferred destructors of the code under
+        // test run there, and a corrupted structure can make one of them loop forever)
         flush_epoch();
+        *current.lock().unwrap() = None;
         a.runs += 1;
         *a.strategies.entry(sched.strategy.name()).or_insert(0) += 1;
         if let FaultMode::Random { rate_pm, .. } = &sched.faults {
@@ -613,12 +625,36 @@ pub fn run_batch(scn: &'static dyn DynScenario, opts: &BatchOpts) -> i32 {
         children.push((k, c));
     }
     let mut a = Agg::default();
+    let mut crash_prefix: Option<(u64, u64)> = None;
     for (k, mut c) in children {
         let st = c.wait().expect("wait worker");
         let f = rundir.join(format!("worker-{}.json", k));
         match std::fs::read(&f).ok().and_then(|b| serde_json::from_slice::<Agg>(&b).ok()) {
             Some(w) => merge_agg(&mut a, w),
-            None => a.harness_errors.push(format!("worker {} produced no result (status {:?})", k, st.code())),
+            None => {
+                use std::os::unix::process::ExitStatusExt;
+                let crumb = std::fs::read_to_string(rundir.join(format!("cur.{}", k))).ok().and_then(|s| s.trim().parse::<u64>().ok());
+                match (st.signal(), crumb) {
+                    // SIGSEGV / SIGBUS / SIGABRT / SIGILL / SIGFPE while executing a run: the code under
+                    // test (the only unsafe code in the process besides the engine) crashed the process
+                    (Some(sig), Some(run)) if [4, 6, 7, 8, 11].contains(&sig) => {
+                        let sched = sched_for(scn, opts.seed, run);
+                        a.runs += 1;
+                        a.found.push(FoundJ {
+                            run,
+                            plan: plan_for(scn, opts.seed, run, opts.tier),
+                            preemptions: vec![],
+                            faults: vec![],
+                            violation: Violation { class: "crash".into(), detail: format!("worker process {} died with signal {} while executing run {} (its runs {}, {}, ... in one process): memory corruption, abort or stack overflow", k, sig, run, k, k + jobs) },
+                            strategy: sched.strategy.name(),
+                            sched_seed: sched.seed,
+                            code_seed: sched.code_seed,
+                        });
+                        crash_prefix = Some((k, jobs));
+                    }
+                    _ => a.harness_errors.push(format!("worker {} produced no result (status {:?})", k, st)),
+                }
+            }
         }
     }
     let _ = std::fs::remove_dir_all(&rundir);
@@ -648,7 +684,9 @@ pub fn run_batch(scn: &'static dyn DynScenario, opts: &BatchOpts) -> i32 {
             faults: fj.faults,
             violation: fj.violation,
         };
-        let (file, min_v) = minimise_and_write(scn, opts, f);
+        // (a worker executes runs k, k+jobs, ...: the prefix of the crashed run follows from its index)
+        let crash_prefix = crash_prefix.map(|_| (f.run % jobs, jobs));
+        let (file, min_v) = minimise_and_write(scn, opts, f, crash_prefix);
         match matches_known(&known, scn.property(), scn.name(), &min_v) {
             Some(k) => {
                 known_lines.insert(format!("KNOWN-FINDING: property={} {}", scn.property(), k.what));
@@ -699,13 +737,20 @@ fn same_class(a: &Option<Violation>, class: &str) -> bool {
 
 /// Shrink plan, faults and pre-emptions while the same violation class persists; write the replay
 /// file; verify it replays. Returns (path, minimised violation).
-fn minimise_and_write(scn: &dyn DynScenario, opts: &BatchOpts, f: FoundViolation) -> (String, Violation) {
+fn minimise_and_write(scn: &dyn DynScenario, opts: &BatchOpts, f: FoundViolation, crash_prefix: Option<(u64, u64)>) -> (String, Violation) {
     let class = f.violation.class.clone();
     let t0 = Instant::now();
     if class == "hang" {
         // re-executing would hang again; the replay command carries its own watchdog
         let original = json!({"note": "not minimised: the run does not terminate"});
-        let file = write_replay(scn, opts, &f, &f.plan, &[], &[], &f.violation, &original);
+        let file = write_replay(scn, opts, &f, &f.plan, &[], &[], &f.violation, &original, None);
+        return (file, f.violation.clone());
+    }
+    if class == "crash" {
+        // re-executing in this process would kill it; the replay command re-runs the worker's
+        // sequence of runs in a child process
+        let original = json!({"note": "not minimised: the run kills the process that executes it"});
+        let file = write_replay(scn, opts, &f, &f.plan, &[], &[], &f.violation, &original, crash_prefix);
         return (file, f.violation.clone());
     }
     let mut plan = f.plan.clone();
@@ -737,7 +782,7 @@ fn minimise_and_write(scn: &dyn DynScenario, opts: &BatchOpts, f: FoundViolation
         }
         None => {
             eprintln!("HARNESS-ERROR: recorded schedule of run {} does not reproduce {} on replay", f.run, class);
-            let file = write_replay(scn, opts, &f, &plan, &pre, &faults, &viol, &original);
+            let file = write_replay(scn, opts, &f, &plan, &pre, &faults, &viol, &original, None);
             return (file, viol);
         }
     }
@@ -819,7 +864,7 @@ fn minimise_and_write(scn: &dyn DynScenario, opts: &BatchOpts, f: FoundViolation
             }
         }
     }
-    let file = write_replay(scn, opts, &f, &plan, &pre, &faults, &viol, &original);
+    let file = write_replay(scn, opts, &f, &plan, &pre, &faults, &viol, &original, None);
     // Verify: replay twice from the file contents.
     for _ in 0..2 {
         match replay_file(scn, &file, false) {
@@ -851,6 +896,7 @@ fn write_replay(
     faults: &[FaultDecision],
     viol: &Violation,
     original: &Value,
+    crash_prefix: Option<(u64, u64)>,
 ) -> String {
     let rf = ReplayFile {
         property: scn.property().to_string(),
@@ -869,6 +915,7 @@ fn write_replay(
         code_seed: f.sched.code_seed,
         schedule_hash: String::new(),
         minimised_from: original.clone(),
+        crash_prefix,
     };
     let dir = crate::verif_dir().join("replays");
     let _ = std::fs::create_dir_all(&dir);
@@ -881,6 +928,24 @@ fn write_replay(
 pub fn replay_file(scn: &dyn DynScenario, path: &str, verbose: bool) -> Result<Option<Violation>, String> {
     let s = std::fs::read_to_string(path).map_err(|e| e.to_string())?;
     let rf: ReplayFile = serde_json::from_str(&s).map_err(|e| e.to_string())?;
+    if rf.violation.class == "crash" {
+        // a recorded crash is replayed in a child process that executes the same sequence of runs
+        // (same seeded strategies) as the worker that died
+        use std::os::unix::process::ExitStatusExt;
+        let (first, stride) = rf.crash_prefix.unwrap_or((rf.run, 1));
+        let exe = std::env::current_exe().map_err(|e| e.to_string())?;
+        for attempt in 0..3 {
+            let st = std::process::Command::new(&exe)
+                .args(["crash-child", &rf.property, "--scenario", &rf.scenario, "--tier", &rf.tier, "--seed", &rf.verif_seed.to_string(), "--offset", &first.to_string(), "--stride", &stride.to_string(), "--runs", &(rf.run + 1).to_string()])
+                .stdout(std::process::Stdio::null())
+                .status()
+                .map_err(|e| e.to_string())?;
+            if let Some(sig) = st.signal() {
+                return Ok(Some(Violation { class: "crash".into(), detail: format!("child process died with signal {} at run {} again (attempt {})", sig, rf.run, attempt + 1) }));
+            }
+        }
+        return Ok(None);
+    }
     if rf.violation.class == "hang" {
         // a recorded hang is replayed under the seeded strategy it was found with, with a watchdog
         let (prop, file) = (rf.property.clone(), path.to_string());
@@ -1153,4 +1218,20 @@ fn fingerprint(r: &RunReport) -> String {
     }
     s.push_str(&format!("viol={:?} faults={:?} hh={:x} obs={}", r.violation, r.faults, r.history_hash, r.observations));
     s
+}
+
+/// Child of a crash replay: executes runs offset, offset+stride, ..., < max_runs like a worker.
+pub fn crash_child(scn: &'static dyn DynScenario, seed: u64, tier: Tier, offset: u64, stride: u64, max_runs: u64) -> i32 {
+    let mut run = offset;
+    while run < max_runs {
+        let plan = plan_for(scn, seed, run, tier);
+        let sched = sched_for(scn, seed, run);
+        let rep = scn.execute_json(&plan, &sched);
+        flush_epoch();
+        if rep.violation.is_some() {
+            eprintln!("run {}: {:?}", run, rep.violation.map(|v| v.class));
+        }
+        run += stride.max(1);
+    }
+    0
 }
